@@ -482,6 +482,9 @@ def catalogue(big=False):
                                [call("G"), call("SUB", binds={"n": split(ref("G", "ns"))}, mode="array")],
                                {"o": ref("SUB", "all")})], "TOP", {}))
 
+    # 13f". a call mapped over an output of a call that may be disabled at run time (it is not / it is)
+    P.extend(map_over_disabled_producer())
+
     # 13g. a preflight stage inside a mapped sub-pipeline that takes the mapped element: one
     #      preflight job per fork, each fork's calls wait for (at least) their own
     P.append(program("preflight_forked", [], [stage("CHK", "int x", "", {}), S_echo("W")],
@@ -736,6 +739,19 @@ def mixed_static_dynamic_flags():
                                 call("ALL", binds={"x": ref("INNER", "y")})],
                                {"o": ref("ALL", "y")})], "TOP", {}))
 
+    return P
+
+
+def map_over_disabled_producer():
+    """a call mapped over an output of a call that has a run-time `disabled` modifier (flag false
+    and true); part of catalogue()"""
+    P = []
+    for nm, flag in (("map_over_maybe_enabled", False), ("map_over_maybe_disabled", True)):
+        P.append(program(nm, [], [S_const("F", "bool f", {"f": flag}), S_const("GEN", "int[] ys", {"ys": [1, 2]}), S_echo("A")],
+                         [pipeline("TOP", "", "int[] o",
+                                   [call("F"), call("GEN", dis=ref("F", "f")),
+                                    call("A", binds={"x": split(ref("GEN", "ys"))}, mode="array")],
+                                   {"o": ref("A", "y")})], "TOP", {}))
     return P
 
 
